@@ -11,6 +11,11 @@
 #ifndef MC_PART
     #define MC_PART 1
 #endif
+#if defined(C15_R2_INVOKE)
+    #define C15_IJOB(NAME) NAME "/zoo2"
+#else
+    #define C15_IJOB(NAME) NAME
+#endif
 
 namespace c15 {
 
@@ -73,21 +78,21 @@ inline constexpr bool complete_ok = !incomplete_core<T>;
     };
 
 #if MC_PART == 1
-C15_CONCEPT1(integral, std::integral, true, false)
-C15_CONCEPT1(signed_integral, std::signed_integral, true, false)
-C15_CONCEPT1(unsigned_integral, std::unsigned_integral, true, false)
+C15_CONCEPT1(integral, std::integral, !int128_quirk<T>, false)
+C15_CONCEPT1(signed_integral, std::signed_integral, !int128_quirk<T>, false)
+C15_CONCEPT1(unsigned_integral, std::unsigned_integral, !int128_quirk<T>, false)
 C15_CONCEPT1(floating_point, std::floating_point, true, false)
 C15_CONCEPT1(destructible, std::destructible, complete_ok<T>, false)
 C15_CONCEPT1(constructible_from, std::constructible_from, complete_ok<T>, false)
 C15_CONCEPT1(default_initializable, std::default_initializable, complete_ok<T>, false)
 C15_CONCEPT1(move_constructible, std::move_constructible, complete_ok<T>, false)
 C15_CONCEPT1(copy_constructible, std::copy_constructible, complete_ok<T>, false)
-C15_CONCEPT1(movable, std::movable, complete_ok<T>, (std::rank_v<std::remove_reference_t<T>> >= 2))
-C15_CONCEPT1(copyable, std::copyable, complete_ok<T>, (std::rank_v<std::remove_reference_t<T>> >= 2))
-C15_CONCEPT1(semiregular, std::semiregular, complete_ok<T>, (std::rank_v<std::remove_reference_t<T>> >= 2))
-C15_CONCEPT1(regular, std::regular, complete_ok<T>, (std::rank_v<std::remove_reference_t<T>> >= 2))
+C15_CONCEPT1(movable, std::movable, complete_ok<T>, false)
+C15_CONCEPT1(copyable, std::copyable, complete_ok<T>, false)
+C15_CONCEPT1(semiregular, std::semiregular, complete_ok<T>, false)
+C15_CONCEPT1(regular, std::regular, complete_ok<T>, false)
 C15_CONCEPT1(equality_comparable, std::equality_comparable, complete_ok<T>, false)
-C15_CONCEPT1(swappable, std::swappable, complete_ok<T>, (std::rank_v<std::remove_reference_t<T>> >= 2))
+C15_CONCEPT1(swappable, std::swappable, complete_ok<T>, false)
 C15_CONCEPT1(boolean_testable, std::__detail::__boolean_testable, complete_ok<T>, false)
 #endif
 
@@ -203,6 +208,29 @@ struct invoke_cases<tl<F, Fs...>, tl<ArgLists...>> {
 };
 
 // clang-format off
+#if defined(C15_R2_INVOKE)
+// round 2 (thorough tier, own translation unit): callable objects whose call operator is generic, overloaded on the
+// value category / constness of the object, deleted, private, variadic, has default arguments, returns an immovable
+// prvalue / a reference / a bool-like class, takes move-only or reference parameters; surrogate call functions;
+// closure types (generic, mutable, noexcept); callables passed as lvalue / const lvalue / rvalue references and
+// pointers; function TYPES (plain and cv-qualified); references to pointers to functions and members; non-callables
+using callables = tl<zoo::GenericFunctor, zoo::RefQualFunctor, zoo::RefQualFunctor&, zoo::RefQualFunctor const&,
+                     zoo::RefQualFunctor&&, zoo::RefQualFunctor const, zoo::MutableFunctor, zoo::MutableFunctor const,
+                     zoo::MutableFunctor&, zoo::MutableFunctor const&, zoo::DeletedCall, zoo::OverloadFunctor,
+                     zoo::VariadicFunctor, zoo::DefaultArgFunctor, zoo::ReturnsImmovable, zoo::ReturnsRef,
+                     zoo::ReturnsBoolLike, zoo::TakesRef, zoo::TakesRvalueRef, zoo::TakesMoveOnly, zoo::PrivateCall,
+                     zoo::ToFnPtr, zoo::ToFnPtr const&, zoo::LambdaGeneric, zoo::LambdaMutable, zoo::LambdaMutable const&,
+                     zoo::LambdaNoexcept, zoo::LambdaRefRet, zoo::Functor const&, zoo::Functor&&, zoo::Functor*,
+                     zoo::Functor volatile&, int(int), int (&)(int, ...), void() const, void (*&)(), void (* const&)() noexcept,
+                     int zoo::Agg::* const&, int const zoo::Agg::*, void (zoo::Agg::*&&)() const, void (zoo::Agg::*)() &,
+                     void (zoo::Agg::*)() const volatile, int (zoo::Agg::*)(int, ...), void (zoo::Agg::*)() const& noexcept,
+                     std::nullptr_t, void, int*, zoo::Agg&>;
+using arglists  = tl<tl<>, tl<int>, tl<int&>, tl<int const&>, tl<double>, tl<void*>, tl<void>, tl<int, int>, tl<zoo::MoveOnly>,
+                     tl<zoo::MoveOnly&>, tl<zoo::MoveOnly&&>, tl<zoo::Agg&>, tl<zoo::Agg const>, tl<zoo::Agg*&>, tl<zoo::AggDerived>,
+                     tl<zoo::AggDerived*>, tl<zoo::Agg volatile&>, tl<zoo::Agg&&>, tl<zoo::Agg&, int>, tl<zoo::Agg const*, int>,
+                     tl<zoo::ToInt>, tl<zoo::ToAny>, tl<int, double, char>, tl<zoo::Agg, int, int>>;
+using returns   = tl<void const, int const&, int&&, long, zoo::Immovable, zoo::ToInt, char*, double>;
+#else
 using callables = tl<zoo::Functor, zoo::FunctorNoexcept, zoo::Pred, zoo::Lambda, zoo::LambdaCap, zoo::Agg, int,
                      void (*)(), int (*)(int) noexcept, int (&)(int) noexcept, bool (*)(int, int), int (*)(int, ...),
                      int zoo::Agg::*, void (zoo::Agg::*)(), void (zoo::Agg::*)() const, void (zoo::Agg::*)() &&,
@@ -211,6 +239,7 @@ using arglists  = tl<tl<>, tl<int>, tl<int, int>, tl<double>, tl<zoo::ToInt>, tl
                      tl<zoo::Agg>, tl<zoo::Agg*>, tl<zoo::Agg const*>, tl<zoo::AggDerived&>, tl<zoo::Agg&, int>,
                      tl<zoo::Agg*, int>, tl<zoo::Poly>, tl<zoo::Base*>>;
 using returns   = tl<void, int, int&, zoo::Agg, zoo::FromInt, bool>;
+#endif
 // clang-format on
 using inv_cases = typename invoke_cases<callables, arglists>::type;
 
@@ -226,14 +255,27 @@ struct with_return<tl<R, Rs...>, tl<Cases...>> {
     using type = tl_cat_t<tl<typename prepend<R, Cases>::type...>, typename with_return<tl<Rs...>, tl<Cases...>>::type>;
 };
 // is_invocable_r: at most 2 arguments keep a case within the 4 type slots of a cell
+#if defined(C15_R2_INVOKE)
+using arglists_r = tl<tl<>, tl<int>, tl<int&>, tl<double>, tl<zoo::MoveOnly>, tl<zoo::Agg&>, tl<zoo::Agg const>, tl<zoo::AggDerived*>,
+                      tl<zoo::Agg&, int>, tl<int, int>>;
+#else
 using arglists_r = tl<tl<>, tl<int>, tl<int, int>, tl<zoo::ToInt>, tl<zoo::Agg&>, tl<zoo::Agg const&>, tl<zoo::Agg*>,
                       tl<zoo::Agg&, int>>;
+#endif
 using inv_r_cases = typename with_return<returns, typename invoke_cases<callables, arglists_r>::type>::type;
 
 // relations: R x {T} x {U}
+#if defined(C15_R2_INVOKE)
+using rel_R     = tl<zoo::ReturnsBoolLike, zoo::LambdaNoexcept, zoo::GenericFunctor, zoo::TakesMoveOnly, zoo::OverloadFunctor,
+                     zoo::MutableFunctor, zoo::MutableFunctor&, zoo::VariadicFunctor, zoo::DefaultArgFunctor, zoo::Pred const&,
+                     bool (&)(int, int), zoo::EqNonBool>;
+using rel_T     = tl<tl<int, int>, tl<int&, long>, tl<int, zoo::MoveOnly>, tl<zoo::MoveOnly, zoo::MoveOnly>, tl<void*, int>,
+                     tl<zoo::ToInt, double>, tl<zoo::UnscopedNeg, int>, tl<zoo::Scoped, int>>;
+#else
 using rel_R     = tl<zoo::Pred, zoo::Functor, zoo::Lambda, bool (*)(int, int), int (*)(int, ...), zoo::EqComparable, int>;
 using rel_T     = tl<tl<int, int>, tl<int, double>, tl<int, zoo::ToInt>, tl<zoo::ToInt, zoo::ToInt>, tl<int, zoo::Agg>,
                      tl<zoo::Agg, zoo::Agg>>;
+#endif
 using rel_cases = typename invoke_cases<rel_R, rel_T>::type;
 #endif
 
@@ -245,21 +287,21 @@ int main(int argc, char** argv)
     mc::Main m(argc, argv);
 #if MC_PART == 1
     using cases = wrap1_t<zoo_t>;
-    m.job("concepts-arithmetic", {"quick", "thorough"}, [](mc::Reporter& r) {
+    m.job(C15_JOB("concepts-arithmetic"), {"quick", "thorough"}, [](mc::Reporter& r) {
         run_columns<cases, integral_C, signed_integral_C, unsigned_integral_C, floating_point_C>(r);
     });
-    m.job("concepts-object", {"quick", "thorough"}, [](mc::Reporter& r) {
+    m.job(C15_JOB("concepts-object"), {"quick", "thorough"}, [](mc::Reporter& r) {
         run_columns<cases, destructible_C, constructible_from_C, default_initializable_C, move_constructible_C,
             copy_constructible_C, movable_C, copyable_C, semiregular_C, regular_C, equality_comparable_C, swappable_C,
             boolean_testable_C>(r);
     });
 #elif MC_PART == 2
-    m.job("invoke", {"quick", "thorough"}, [](mc::Reporter& r) {
+    m.job(C15_IJOB("invoke"), {"quick", "thorough"}, [](mc::Reporter& r) {
         run_columns<inv_cases, is_invocable_S, is_invocable_V, invoke_result_T, invoke_result_A, invocable_C,
             regular_invocable_C, predicate_C>(r);
     });
-    m.job("invoke-r", {"quick", "thorough"}, [](mc::Reporter& r) { run_columns<inv_r_cases, is_invocable_r_S, is_invocable_r_V>(r); });
-    m.job("relations", {"quick", "thorough"}, [](mc::Reporter& r) {
+    m.job(C15_IJOB("invoke-r"), {"quick", "thorough"}, [](mc::Reporter& r) { run_columns<inv_r_cases, is_invocable_r_S, is_invocable_r_V>(r); });
+    m.job(C15_IJOB("relations"), {"quick", "thorough"}, [](mc::Reporter& r) {
         run_columns<rel_cases, relation_C, equivalence_relation_C, strict_weak_order_C, predicate_C>(r);
     });
 #endif
